@@ -27,7 +27,54 @@ pub open spec fn all_has(ctx: &Context, s: Seq<ExprRef>) -> bool {
     forall|i: int| 0 <= i < s.len() ==> ctx.has(#[trigger] s[i])
 }
 
-/// what path compression may do to the cache: an entry that changes was set, stays set, and now points further along its own chain
-pub open spec fn compressed<M: ExprMap<Option<ExprRef>>>(m0: &M, m1: &M) -> bool {
-    forall|k: ExprRef| #[trigger] m1.at(k) != m0.at(k) ==> m0.at(k) is Some && m1.at(k) is Some && reach(chain_of(m0), k, m1.at(k)->Some_0)
+/// what path compression may do to the cache: an entry that changes was set and now holds the returned fixed point, which
+/// lies further along its own chain
+pub open spec fn compressed<M: ExprMap<Option<ExprRef>>>(m0: &M, m1: &M, res: Option<ExprRef>) -> bool {
+    forall|k: ExprRef| #[trigger] m1.at(k) != m0.at(k) ==> m0.at(k) is Some && res is Some && m1.at(k) == res && reach(chain_of(m0), k, res->Some_0)
+}
+
+/// `v` will get (or has) an answer: it is cached, still on the work list, or is the expression being processed right now
+pub open spec fn pending<M: ExprMap<Option<ExprRef>>>(m: &M, todo: Seq<ExprRef>, extra: Option<ExprRef>, v: ExprRef) -> bool {
+    m.at(v) is Some || todo.contains(v) || extra == Some(v)
+}
+
+/// every cached answer is itself pending: at the end of the traversal (empty work list) every chain ends in a self loop or
+/// goes on for ever, it never hits an unset key — that is why the final `get_fixed_point(..).unwrap()` cannot panic
+pub open spec fn closed_mod<M: ExprMap<Option<ExprRef>>>(m: &M, todo: Seq<ExprRef>, extra: Option<ExprRef>) -> bool {
+    forall|k: ExprRef| (#[trigger] m.at(k)) is Some ==> pending(m, todo, extra, m.at(k)->Some_0)
+}
+
+pub open spec fn roots_pending<M: ExprMap<Option<ExprRef>>>(m: &M, todo: Seq<ExprRef>, extra: Option<ExprRef>, roots: Seq<ExprRef>) -> bool {
+    forall|i: int| 0 <= i < roots.len() ==> pending(m, todo, extra, #[trigger] roots[i])
+}
+
+/// the traversal is over: every cached answer has an answer
+pub open spec fn closed<M: ExprMap<Option<ExprRef>>>(m: &M) -> bool {
+    forall|k: ExprRef| (#[trigger] m.at(k)) is Some ==> m.at(m.at(k)->Some_0) is Some
+}
+
+/// the chain from `key` reaches a key without an answer
+pub open spec fn hits_unset(c: Chain, key: ExprRef) -> bool {
+    exists|k: ExprRef| #[trigger] reach(c, key, k) && c(k) is None
+}
+
+/// meta.rs SparseExprMap (its Index / IndexMut bodies are verified in unit meta against this interface); `#[derive(Default)]`
+/// gives the empty table with default `None`
+#[verifier::external_body]
+#[verifier::reject_recursive_types(T)]
+pub struct SparseExprMap<T> { _p: core::marker::PhantomData<T> }
+
+impl ExprMap<Option<ExprRef>> for SparseExprMap<Option<ExprRef>> {
+    uninterp spec fn at(&self, e: ExprRef) -> Option<ExprRef>;
+    #[verifier::external_body]
+    fn get(&self, e: ExprRef) -> (r: Option<ExprRef>) { unimplemented!() }
+    #[verifier::external_body]
+    fn set(&mut self, e: ExprRef, v: Option<ExprRef>) { unimplemented!() }
+}
+
+impl SparseExprMap<Option<ExprRef>> {
+    #[verifier::external_body]
+    pub fn default() -> (r: Self)
+        ensures forall|k: ExprRef| (#[trigger] r.at(k)) is None,
+    { unimplemented!() }
 }
